@@ -7,13 +7,17 @@ the model's parameter values as it found them" is proved for mca.parameter_elast
 on normal return every parameter record has the value it had on entry, the containers
 and the name space are unchanged - on top of a value-level contract of
 Model.update_parameters that is proved as well (each named parameter given as a plain
-value ends with that value, no other record changes).  Assumed: get_parameter_values()
+value ends with that value, no other record changes).  mca.variable_elasticities is proved
+to write nothing but the cache field: parameter values, name space and a state dict handed
+in by the caller are what they were on entry (it perturbs a copy).  Assumed: get_parameter_values()
 returns the current plain values; get_fluxes / get_initial_conditions write only the
-cache field."""
+cache field; get_variable_names writes nothing."""
 from props._runner import run
 
 if __name__ == "__main__":
     run("C18", "exploration", files=["model_edit.py", "mca_frames.py"],
-        targets=["mxlpy.model:Model.update_parameters", "mxlpy.mca:parameter_elasticities"],
+        targets=["mxlpy.model:Model.update_parameters", "mxlpy.mca:parameter_elasticities",
+                 "mxlpy.mca:variable_elasticities"],
         notes="C18: run-time contract on the real code over an enumerated small scope (bounded stand-in, deciding); "
-              "parameter_elasticities proved to restore every parameter value on normal return")
+              "parameter_elasticities proved to restore every parameter value on normal return; "
+              "variable_elasticities proved to leave parameter values and the caller's state dict untouched")
